@@ -1,7 +1,7 @@
 (* Property C19 — statements only.  Each is closed by [exact] of a lemma proved in Coordproof1..4.
    Model: Coord.v.  Strings are lists of code points; [None] at the outer level is a Python exception. *)
 From Coq Require Import List ZArith Bool. Import ListNotations.
-Require Import Coord Coordproof1 Coordproof2 Coordproof3 Coordproof4.
+Require Import Coord Coordproof1 Coordproof2 Coordproof3 Coordproof4 Coordproof5.
 Open Scope Z_scope.
 
 (* ---- 1. column letters and column numbers are a bijection (no bound); the loop of digit_to_alpha terminates ---- *)
@@ -116,6 +116,24 @@ Theorem C19_forms_agree_any : forall len x y, 0 <= x -> 0 <= y ->
 Proof. exact forms_any. Qed.
 Print Assumptions C19_forms_agree_any.
 
+(* hence the getters return the same cells for the string form and the tuple form (model of the getters on an expanded grid) *)
+Theorem C19_forms_address_same_cells : forall (w : Z) (g : grid) (row : list cellv) x y z t, 0 <= x -> 0 <= y -> 0 <= z -> 0 <= t ->
+  exists s a c col, print_cell x y = Some s /\ print_area x y z t = Some a /\ print_cols x z = Some c /\ print_col x = Some col /\
+    table_get_cell w g (CStr s) = table_get_cell w g (CTup [Some x; Some y]) /\
+    table_get_cell w g (CStr a) = table_get_cell w g (CTup [Some x; Some y]) /\
+    table_get_cells w g (Some (CStr a)) = table_get_cells w g (Some (CTup [Some x; Some y; Some z; Some t])) /\
+    table_get_values w g (Some (CStr a)) = table_get_values w g (Some (CTup [Some x; Some y; Some z; Some t])) /\
+    table_get_cells w g (Some (CStr (print_rows y t))) = table_get_cells w g (Some (CTup [Some y; Some t])) /\
+    table_get_values w g (Some (CStr (print_rows y t))) = table_get_values w g (Some (CTup [Some y; Some t])) /\
+    table_get_row w g (AStr (print_row y)) = table_get_row w g (AInt y) /\
+    table_get_row w g (AStr s) = table_get_row w g (AInt y) /\
+    table_get_column w g (AStr col) = table_get_column w g (AInt x) /\
+    table_get_column w g (AStr s) = table_get_column w g (AInt x) /\
+    row_get_values row (Some (CStr c)) = row_get_values row (Some (CTup [Some x; Some z])) /\
+    row_get_cell row (AStr col) = row_get_cell row (AInt x).
+Proof. exact same_cells. Qed.
+Print Assumptions C19_forms_address_same_cells.
+
 (* ---- 5. a range bounds the result on both sides ---- *)
 Theorem C19_range_bounds_rows : forall w h y t, 0 <= y -> 0 <= t ->
   exists l, get_rows_idx w h (Some (CStr (print_rows y t))) = Some l /\ get_rows_idx w h (Some (CTup [Some y; Some t])) = Some l /\
@@ -191,14 +209,14 @@ Definition C19_full : Prop :=
   ltac:(let t := type of print_parse_cols in exact t) /\ ltac:(let t := type of print_parse_rows in exact t) /\
   ltac:(let t := type of forms_table_area in exact t) /\ ltac:(let t := type of forms_table_cell in exact t) /\
   ltac:(let t := type of forms_table_rows in exact t) /\ ltac:(let t := type of forms_column_cols in exact t) /\
-  ltac:(let t := type of forms_cell in exact t) /\ ltac:(let t := type of forms_row in exact t) /\ ltac:(let t := type of forms_any in exact t) /\
+  ltac:(let t := type of forms_cell in exact t) /\ ltac:(let t := type of forms_row in exact t) /\ ltac:(let t := type of forms_any in exact t) /\ ltac:(let t := type of same_cells in exact t) /\
   ltac:(let t := type of rows_bounded in exact t) /\ ltac:(let t := type of columns_bounded in exact t) /\ ltac:(let t := type of values_bounded in exact t) /\
   ltac:(let t := type of range_roundtrip in exact t) /\ ltac:(let t := type of base_roundtrip in exact t) /\ ltac:(let t := type of rename_updates in exact t).
 Theorem C19_full_holds : C19_full.
 Proof.
   exact (conj alpha_digit_lemma (conj digit_alpha_lemma (conj increment_spec_lemma (conj negative_table (conj negative_any
         (conj print_parse_cell (conj print_parse_area (conj print_parse_cols (conj print_parse_rows
-        (conj forms_table_area (conj forms_table_cell (conj forms_table_rows (conj forms_column_cols (conj forms_cell (conj forms_row (conj forms_any
-        (conj rows_bounded (conj columns_bounded (conj values_bounded (conj range_roundtrip (conj base_roundtrip rename_updates))))))))))))))))))))).
+        (conj forms_table_area (conj forms_table_cell (conj forms_table_rows (conj forms_column_cols (conj forms_cell (conj forms_row (conj forms_any (conj same_cells
+        (conj rows_bounded (conj columns_bounded (conj values_bounded (conj range_roundtrip (conj base_roundtrip rename_updates)))))))))))))))))))))).
 Qed.
 Print Assumptions C19_full_holds.
